@@ -7,8 +7,14 @@ package selector
 
 // ---- the Selector interface: every method is read-only ----
 
+// The interests of a selector are a function of the selector: silen is their number (negative: no
+// stated interests, i.e. nil: "everything"), siat the j-th of them.
+//@ pure func silen(s Selector) mathint
+//@ pure func siat(s Selector, j mathint) datamodel.PathSegment
 //@ interface Selector.Interests() (r)
 //@   assigns nothing
+//@   ensures (r == nil) == (silen(recv) < 0)
+//@   ensures r != nil ==> len(r) == silen(recv) && (forall j mathint :: 0 <= j && j < len(r) ==> r[j] == siat(recv, j))
 //@ interface Selector.Explore(n, ps) (s, err)
 //@   assigns nothing
 // Deciding and matching are deterministic functions of the selector and the node's value (the matched
@@ -130,14 +136,28 @@ package selector
 //@   loop 0 invariant 0 - 1 <= rangeindex && rangeindex < len(s.Members)
 //@   loop 0 invariant forall i mathint :: 0 <= i && i < len(s.Members) ==> s.Members[i] != nil && memberat(s, i) == s.Members[i]
 //@   loop 0 invariant udecides(s, n, 0) == udecides(s, n, rangeindex + 1)
+// Union interests: none stated (nil) as soon as one member states none; otherwise the members'
+// interests one after the other, each in its own form and order, nothing dropped or merged
+// (isum(s, k): how many interests the first k members state).
+//@ pure func isum(s ExploreUnion, k mathint) mathint
+//@ axiom isum_0: forall s ExploreUnion :: isum(s, 0) == 0
+//@ axiom isum_step: forall s ExploreUnion, k mathint :: 0 <= k && k < membercount(s) ==> isum(s, k + 1) == isum(s, k) + silen(memberat(s, k))
 //@ func (ExploreUnion).Interests() (r)
 //@   requires forall i mathint :: 0 <= i && i < len(s.Members) ==> s.Members[i] != nil
+//@   requires membercount(s) == len(s.Members) && (forall i mathint :: 0 <= i && i < len(s.Members) ==> memberat(s, i) == s.Members[i])
+//@   assigns nothing
+//@   ensures[C07,C16] (exists k mathint :: 0 <= k && k < len(s.Members) && silen(s.Members[k]) < 0) ==> r == nil
+//@   ensures[C07,C16] (forall k mathint :: 0 <= k && k < len(s.Members) ==> silen(s.Members[k]) >= 0) ==> r != nil && len(r) == isum(s, len(s.Members))
+//@   ensures[C07,C16] r != nil ==> forall k mathint, j mathint :: 0 <= k && k < len(s.Members) && 0 <= j && j < silen(s.Members[k]) ==> r[isum(s, k) + j] == siat(s.Members[k], j)
 //@   loop 0 invariant 0 - 1 <= rangeindex && rangeindex < len(s.Members)
-//@   loop 0 invariant forall i mathint :: 0 <= i && i < len(s.Members) ==> s.Members[i] != nil
-//@   loop 0 assigns foreign
-//@   loop 1 invariant 0 - 1 <= rangeindex && rangeindex < len(s.Members)
-//@   loop 1 invariant forall i mathint :: 0 <= i && i < len(s.Members) ==> s.Members[i] != nil
-//@   loop 1 assigns foreign
+//@   loop 0 invariant forall i mathint :: 0 <= i && i < len(s.Members) ==> s.Members[i] != nil && memberat(s, i) == s.Members[i]
+//@   loop 0 invariant forall i mathint :: 0 <= i && i <= rangeindex ==> silen(s.Members[i]) >= 0
+//@   loop 1 invariant 0 - 1 <= rangeindex && rangeindex < len(s.Members) && v != nil && fresh(v) && len(v) == isum(s, rangeindex + 1)
+//@   loop 1 invariant forall i mathint :: 0 <= i && i < len(s.Members) ==> s.Members[i] != nil && memberat(s, i) == s.Members[i]
+//@   loop 1 invariant forall i mathint :: 0 <= i && i < len(s.Members) ==> silen(s.Members[i]) >= 0
+//   (each member's stretch lies inside what has been accumulated so far)
+//@   loop 1 invariant forall k mathint :: 0 <= k && k <= rangeindex ==> 0 <= isum(s, k) && isum(s, k) + silen(s.Members[k]) <= len(v)
+//@   loop 1 invariant forall k mathint, j mathint :: 0 <= k && k <= rangeindex && 0 <= j && j < silen(s.Members[k]) ==> v[isum(s, k) + j] == siat(s.Members[k], j)
 
 //@ func (ExploreRecursiveEdge).Explore(n, p) (r, err)
 //@ func (ExploreRecursiveEdge).Interests() (r)
